@@ -29,7 +29,7 @@ pub open spec fn swap_guarded(w: World, pair: Seq<char>, i0: AssetInfo, i1: Asse
 }
 
 //%fn contracts/halo-pair/src/contract.rs | - | swap
-//%%rewrite #1 /to\.unwrap_or_else\(\|\| sender\.clone\(\)\)/ => vunwrap_or_else(to, || -> (x: Addr) ensures x == sender { sender.clone() }) ## R4: Option::unwrap_or_else -> verified helper; closure annotated with its own (verified) ensures
+//%%rewrite #? /to\.unwrap_or_else\(\|\| sender\.clone\(\)\)/ => vunwrap_or_else(to, || -> (x: Addr) ensures x == sender { sender.clone() }) ## R4: Option::unwrap_or_else -> verified helper; closure annotated with its own (verified) ensures
 //%%sig
     ensures
         /*[C02,C01,C03,C07,C12 swap.settles]*/ r is Ok ==> old(deps.storage).pair_info is Some && old(deps.storage).commission is Some && ({
